@@ -135,7 +135,9 @@ class StmtMixin:
                 if attr == "OrderedDict":
                     return py(Builtin("dict"), "builtin")
                 if attr not in CLASSES.by_name:
-                    bases = self.opts.get("extern_bases", {}).get(attr, ("object",))
+                    from .contracts import SCHEMAS
+
+                    bases = SCHEMAS[attr].bases if attr in SCHEMAS else ("object",)
                     CLASSES.declare(attr, bases)
                 return py(PyClass(attr), "class")
             return py(Builtin(attr), "builtin")
